@@ -338,7 +338,7 @@ def xvg_shapes(tier):
         add(13, 10, 1, (0, 1), "increasing")
         add(13, 1, 1, (0, 1), "increasing")
     if tier == "thorough":
-        for hr in ((0, 3), (4, 8), (9, 13)):
+        for hr in ((13, 13), (12, 12), (11, 11), (10, 10)):
             add(15, 2, 2, hr, "increasing")
     return out
 
